@@ -341,6 +341,7 @@ class Gen:
             # victim: an active stream listener; the killer goes on the same stream (or another one)
             act = [(k, s) for k, (s, a, w) in self.listeners.items()
                    if a and not w and k not in getattr(self, "victims", set()) and k not in getattr(self, "killers", set())
+                   and k not in getattr(self, "dropped_l", set())
                    and s in self.o and self.o[s].kind == "S"]
             if act:
                 v, s = r.choice(act)
@@ -395,14 +396,19 @@ class Gen:
         if x < p.p_listen_late:
             self.gen_listen()
         if r.random() < p.p_unlisten:
-            act = [l for l, (_, a, _) in self.listeners.items() if a]
+            act = [l for l, (_, a, _) in self.listeners.items() if a and l not in getattr(self, "dropped_l", set())]
             if act:
                 l = r.choice(act)
                 s, _, weak = self.listeners[l]
-                self.listeners[l] = (s, False, weak)
-                self.emit("unlisten %d" % l)
-                if r.random() < 0.2:
+                if weak and self.depth == 0 and r.random() < 0.6 and l not in getattr(self, "victims", set()):
+                    # a weak listener stops with its handle (dropped, then a collection)
+                    self.listeners[l] = (s, False, weak)
+                    self.emit("drop_weak %d" % l)
+                else:
+                    self.listeners[l] = (s, False, weak)
                     self.emit("unlisten %d" % l)
+                    if r.random() < 0.2:
+                        self.emit("unlisten %d" % l)
         if r.random() < p.p_def_in_txn:
             self.gen_def()
         if r.random() < p.p_mem:
@@ -425,7 +431,9 @@ class Gen:
                 self.gen_listen_on(hh)
         if routers and r.random() < 0.3 and self.depth == 0:
             # drop a routed stream completely (handle and listeners), possibly the router handle too
-            routed = [h for h, i in self.o.items() if i.alive and i.role == "route"]
+            routed = [h for h, i in self.o.items() if i.alive and i.role == "route"
+                      and not any(s0 == h and a and l in getattr(self, "dropped_l", set())
+                                  for l, (s0, a, wk) in self.listeners.items())]
             if routed:
                 h = r.choice(routed)
                 for l, (s0, a, wk) in list(self.listeners.items()):
@@ -471,6 +479,14 @@ class Gen:
         r = self.r
         x = r.random()
         live = [h for h, i in self.o.items() if i.alive and i.kind in ("S", "C")]
+        if not self.p.final_teardown and r.random() < 0.15:
+            # drop the handle of a strong listener that stays registered: it must keep being called
+            strong = [l for l, (s0, a, wk) in self.listeners.items() if a and not wk and l not in getattr(self, "dropped_l", set())
+                      and l not in getattr(self, "victims", set())]
+            if strong:
+                l = r.choice(strong)
+                self.dropped_l = getattr(self, "dropped_l", set()) | {l}
+                self.emit("drop_l %d" % l)
         if x < 0.3:
             self.emit("gc")
         elif x < 0.6 and live:
